@@ -671,3 +671,101 @@ Example C12_ex_ordering :
   c "a" "1" = Some (Gt, Ok Gt) /\ c "~~" "~" = Some (Lt, Ok Lt) /\
   c "1.2147483648" "1.0" = Some (Gt, Panic 2%N).
 Proof. vm_compute. repeat split; reflexivity. Qed.
+
+(* ================================================================== (D) after wrap_and_sort (C12 x C13) *)
+(* Relations::wrap_and_sort (RelWrap.relations_ws, the code with the C13 patches: RelWrap.fixed)
+   rebuilds every relation from its accessor values -- the CONSTRAINT node of the result holds ONE
+   token whose text is the whole operator -- and sorts alternatives and entries.  Satisfaction does
+   not see any of it: the object returned is evaluated exactly like the object it was called on.
+   Domain: C13's safe domain (RelWrapSpec.content_safe / field_safe: no digit run above i32::MAX in
+   a required version) and a lookup returning such versions only; outside it debversion's
+   comparison panics and the order of evaluation matters.  Proofs in proofs/SatWrapP.v. *)
+From V.model Require RelWrap RelWrapSpec.
+From V.proofs Require SatWrapP.
+
+(* the full statement: every well-formed field of C13's quantifier, every lookup on the domain *)
+Definition C12_wrap_invariant_full : Prop :=
+  forall (allow : bool) (f : RelGrammar.rfield) (g : str -> option version),
+  RelGrammar.wf_rfield allow f = true -> RelWrapSpec.field_safe f = true ->
+  (forall n v, g n = Some v -> ver_safe v = true) ->
+  exists t', RelWrap.relations_ws RelWrap.fixed (RelGrammar.rtree_of f) = Ok t' /\
+    deb_ll_sat t' g = deb_ll_sat (RelGrammar.rtree_of f) g /\
+    deb_ll_sat (RelGrammar.rtree_of f) g = Ok (deb_spec g (SatWrapP.sat_content (RelWrapSpec.field_wcontent f))).
+Theorem C12_wrap_invariant : C12_wrap_invariant_full.
+Proof. exact SatWrapP.sat_wrap_field. Qed.
+Check C12_wrap_invariant : C12_wrap_invariant_full.
+Print Assumptions C12_wrap_invariant.
+
+(* through the text: what wrap_and_sort prints, read again without error (the path of
+   Control::wrap_and_sort, which stores the printed value), is evaluated like the field itself *)
+Theorem C12_wrap_invariant_reread :
+  forall (allow : bool) (f : RelGrammar.rfield) (g : str -> option version),
+  RelGrammar.wf_rfield allow f = true -> RelWrapSpec.field_safe f = true ->
+  (forall n v, g n = Some v -> ver_safe v = true) ->
+  exists t' tp, RelWrap.relations_ws RelWrap.fixed (RelGrammar.rtree_of f) = Ok t' /\
+    parse_relaxed (text t') allow = Ok (tp, 0) /\
+    deb_ll_sat tp g = deb_ll_sat (RelGrammar.rtree_of f) g.
+Proof. exact SatWrapP.sat_wrap_reread. Qed.
+Check C12_wrap_invariant_reread :
+  forall (allow : bool) (f : RelGrammar.rfield) (g : str -> option version),
+  RelGrammar.wf_rfield allow f = true -> RelWrapSpec.field_safe f = true ->
+  (forall n v, g n = Some v -> ver_safe v = true) ->
+  exists t' tp, RelWrap.relations_ws RelWrap.fixed (RelGrammar.rtree_of f) = Ok t' /\
+    parse_relaxed (text t') allow = Ok (tp, 0) /\
+    deb_ll_sat tp g = deb_ll_sat (RelGrammar.rtree_of f) g.
+Print Assumptions C12_wrap_invariant_reread.
+
+(* beyond the grammar: ANY tree whose accessors do not panic (what the tolerant reader returns for
+   malformed text, what the constructors and edits build); the answer is the decision table of the
+   accessor content, and the lossy evaluator on the sorted content gives it too *)
+Theorem C12_wrap_invariant_any_tree :
+  forall (t : rtree) (es : list (list RelWrap.wrel)) (g : str -> option version),
+  RelWrapSpec.wacc t = Ok es -> RelWrapSpec.content_safe es = true ->
+  (forall n v, g n = Some v -> ver_safe v = true) ->
+  exists t', RelWrap.relations_ws RelWrap.fixed t = Ok t' /\
+    deb_ll_sat t' g = deb_ll_sat t g /\
+    deb_ll_sat t g = Ok (deb_spec g (SatWrapP.sat_content es)) /\
+    deb_lossy_sat (SatWrapP.sat_content (RelWrapSpec.sorted_content es)) g = Ok (deb_spec g (SatWrapP.sat_content es)).
+Proof. exact SatWrapP.sat_wrap_tree. Qed.
+Check C12_wrap_invariant_any_tree :
+  forall (t : rtree) (es : list (list RelWrap.wrel)) (g : str -> option version),
+  RelWrapSpec.wacc t = Ok es -> RelWrapSpec.content_safe es = true ->
+  (forall n v, g n = Some v -> ver_safe v = true) ->
+  exists t', RelWrap.relations_ws RelWrap.fixed t = Ok t' /\
+    deb_ll_sat t' g = deb_ll_sat t g /\
+    deb_ll_sat t g = Ok (deb_spec g (SatWrapP.sat_content es)) /\
+    deb_lossy_sat (SatWrapP.sat_content (RelWrapSpec.sorted_content es)) g = Ok (deb_spec g (SatWrapP.sat_content es)).
+Print Assumptions C12_wrap_invariant_any_tree.
+
+(* the typed view of the accessor content, and the decision table under reordering *)
+Theorem C12_wrap_content_view :
+  forall (t : rtree) (es : list (list RelWrap.wrel)),
+  RelWrapSpec.wacc t = Ok es -> tree_field version parse_version t = Ok (SatWrapP.sat_content es).
+Proof. exact SatWrapP.wacc_tree_field. Qed.
+Check C12_wrap_content_view :
+  forall (t : rtree) (es : list (list RelWrap.wrel)),
+  RelWrapSpec.wacc t = Ok es -> tree_field version parse_version t = Ok (SatWrapP.sat_content es).
+Print Assumptions C12_wrap_content_view.
+
+Theorem C12_table_order_irrelevant :
+  forall (V : Type) (cmp : V -> V -> comparison) (installed : str -> option V) (f f' : list (list (rel V))),
+  RelWrapSpec.perm2 f f' -> satisfied_spec cmp installed f = satisfied_spec cmp installed f'.
+Proof. exact (@SatWrapP.spec_perm2). Qed.
+Check C12_table_order_irrelevant :
+  forall (V : Type) (cmp : V -> V -> comparison) (installed : str -> option V) (f f' : list (list (rel V))),
+  RelWrapSpec.perm2 f f' -> satisfied_spec cmp installed f = satisfied_spec cmp installed f'.
+Print Assumptions C12_table_order_irrelevant.
+
+(* "b | a (>> 1.0)" through wrap_and_sort, a = 1.0 installed: the strict operator stays strict
+   (the CONSTRAINT node of the result is the single token R_ANGLE ">>") *)
+Example C12_ex_wrap_strict :
+  match relations_from_str (s2l "b | a (>> 1.0)"), parse_version (s2l "1.0") with
+  | Ok t, Some v =>
+    let g := find_last [(s2l "a", v)] in
+    match RelWrap.relations_ws RelWrap.fixed t with
+    | Ok t' => text t' = s2l "a (>> 1.0) | b" /\ deb_ll_sat t' g = Ok false /\ deb_ll_sat t g = Ok false
+    | _ => False
+    end
+  | _, _ => False
+  end.
+Proof. vm_compute. repeat split; reflexivity. Qed.
